@@ -226,6 +226,133 @@ theorem C09_delim_kept_integer {F} (ops : FloatOps F) (cfg : LexCfg) (lookup : I
             · exact htokd b hb
           · exact hm3 b hb
 
+/-- INTEGER, writer: every value except the in-band null is written as a token of the grammar denoting it, and that
+    token reads back to the same value with no error, the stream resting at the delimiter -/
+theorem C09_write_read_integer {F} (ops : FloatOps F) (cfg : LexCfg) (lookup : Int → RefLookup) (nullable : Bool)
+    (v : Int) (hlo : longMin ≤ v) (hhi : v < longMax) (sp rest : List Byte) (d : Byte)
+    (hsp : sp.all isSpace = true) (hd : d = 44 ∨ d = 41) :
+    isInteger (attrWrite ops .integer (.int v)) = true ∧ denoteInteger (attrWrite ops .integer (.int v)) = v ∧
+    attrRead ops cfg lookup .integer nullable (IStream.ofBytes (attrWrite ops .integer (.int v) ++ sp ++ d :: rest)) =
+      .ok ⟨.null, .int v, { left := sp.reverse ++ (attrWrite ops .integer (.int v)).reverse, right := d :: rest }⟩ := by
+  have hs := showInt_spec v
+  refine ⟨hs.1, hs.2, ?_⟩
+  have := C09_accept_integer ops cfg lookup nullable (showInt v) sp rest d hs.1 (by rw [hs.2]; exact hlo) (by rw [hs.2]; exact hhi) hsp hd
+  rw [hs.2] at this
+  exact this
+
+/-! ## BOOLEAN / LOGICAL / ENUMERATION -/
+
+/-- BOOLEAN / LOGICAL / ENUMERATION, never silent (any configuration in which `SDAI_LOGICAL::ReadEnum` rejects the name
+    `UNSET` and the severity found after `$` is kept): whenever `STEPattribute::STEPread` flags no error, for *any* input
+    bytes, then either
+    (a) the input is blanks, `.`, a word of letters/digits/`_`, `.`, blanks, and the stream rests at the end or in front of
+        a delimiter; the word, upper-cased, is item `i` of the kind's table (not the "unset" slot) and the attribute holds
+        item `i`; or
+    (b) the attribute is OPTIONAL and the input is `$` (followed by blanks only) or a missing value; or
+    (c) the attribute is OPTIONAL and the input is nothing but blanks. -/
+theorem never_silent_enum_of_cfg {F} (ops : FloatOps F) (cfg : LexCfg) (hcfg : cfg.logicalRejectsUnset = true)
+    (hcfg2 : cfg.dollarKeepsError = true) (lookup : Int → RefLookup) (k : Kind) (hk : EnumLike k) (nullable : Bool)
+    (input : List Byte) (r : ReadResult F)
+    (h : attrRead ops cfg lookup k nullable (IStream.ofBytes input) = .ok r) (hne : NoErr r.sev) :
+    (∃ sp1 name sp2 i, input = sp1 ++ 46 :: (name ++ 46 :: (sp2 ++ r.s.right)) ∧ sp1.all isSpace = true ∧ sp2.all isSpace = true ∧
+        name ≠ [] ∧ name.all pw = true ∧ findName k.enumKind.table (name.map toUpper) = some i ∧
+        k.enumKind.isUnsetIdx i = false ∧ r.val = .enum i ∧ AtDelimOrEnd r.s.right) ∨
+    (nullable = true ∧ r.val = .unset ∧ ∃ sp1 c t, input = sp1 ++ c :: t ∧ sp1.all isSpace = true ∧
+        ((c = 36 ∧ ∃ sp2, t = sp2 ++ r.s.right ∧ sp2.all isSpace = true ∧ AtDelimOrEnd r.s.right) ∨
+         ((c = 44 ∨ c = 41) ∧ r.s.right = c :: t))) ∨
+    (nullable = true ∧ input.all isSpace = true ∧ r.val = .unset) := by
+  obtain ⟨sp1, body, h1, h2, h3, h4⟩ := dropSpaces_split [] input
+  rcases h4 with rfl | ⟨c, t, rfl, hc⟩
+  · -- nothing but blanks
+    simp at h1; subst h1
+    right; right
+    have hws : (IStream.ofBytes input).ws = { left := input.reverse, right := [], eof := true } := by
+      simpa [IStream.ofBytes] using ws_blank [] input true h2
+    have : attrRead ops cfg lookup k nullable (IStream.ofBytes input) =
+        .ok ⟨if nullable then .null else .incomplete, .unset, { left := input.reverse, right := [], eof := true, fail := true }⟩ := by
+      rcases hk with rfl | rfl | ⟨items, rfl⟩ <;> simp only [attrRead, hws] <;>
+        simp [IStream.peekC, IStream.peek, IStream.sentry, IStream.good, enumRead, readEnum, IStream.ws,
+          checkRemainingInput, enumValue, Sev.greater, Sev.toInt] <;> cases nullable <;> rfl
+    rw [this] at h
+    simp only [Outcome.ok.injEq] at h
+    subst h
+    cases nullable with
+    | false => simp [NoErr] at hne
+    | true => exact ⟨rfl, h2, rfl⟩
+  · subst h1
+    by_cases h36 : c = 36
+    · subst h36
+      rw [attrRead_dollar ops cfg lookup k nullable sp1 t h2] at h
+      simp only [Outcome.ok.injEq] at h
+      have hch := cri_char { left := 36 :: sp1.reverse, right := t } Sev.null rfl
+      subst h
+      cases nullable with
+      | false => simp [NoErr] at hne
+      | true =>
+        simp only [hcfg2, if_true] at hne ⊢
+        right; left
+        have := hch.2 hne
+        simp at this
+        obtain ⟨sp2, hs2, ht, _, hat⟩ := this
+        exact ⟨by simp, by simp, sp1, 36, t, rfl, h2, Or.inl ⟨rfl, sp2, ht, by simpa using hs2, hat⟩⟩
+    · by_cases hdl : c = 44 ∨ c = 41
+      · rw [attrRead_missing ops cfg lookup k nullable sp1 t c h2 hdl] at h
+        simp only [Outcome.ok.injEq] at h
+        subst h
+        cases nullable with
+        | false => simp [NoErr] at hne
+        | true => right; left; exact ⟨rfl, rfl, sp1, c, t, rfl, h2, Or.inr ⟨hdl, rfl⟩⟩
+      · have hcond : (c == 36 || c == 44 || c == 41) = false := by
+          simp at hdl ⊢; exact ⟨⟨h36, hdl.1⟩, hdl.2⟩
+        rw [attrRead_enumlike ops cfg lookup k hk nullable sp1 t c h2 hc hcond] at h
+        simp only [Outcome.ok.injEq] at h
+        subst h
+        simp only at hne ⊢
+        have hc44 : c ≠ 44 := fun e => hdl (Or.inl e)
+        have hc41 : c ≠ 41 := fun e => hdl (Or.inr e)
+        generalize hq : enumRead cfg k.enumKind nullable { left := sp1.reverse, right := c :: t } Sev.null = q at hne ⊢
+        have hqe : NoErr q.2.2 := by
+          rcases cri_mono q.2.1 q.2.2 with hm | hm
+          · rw [hm] at hne; exact hne
+          · exact absurd hne hm
+        -- the severity ReadEnum itself reported is null, usermsg or incomplete
+        have hquiet : Quiet (readEnum cfg k.enumKind true { left := sp1.reverse, right := c :: t } Sev.null).2.2 := by
+          rw [← hq] at hqe
+          simp only [enumRead] at hqe
+          by_cases hi : ((readEnum cfg k.enumKind true { left := sp1.reverse, right := c :: t } Sev.null).2.2 == Sev.incomplete) = true
+          · right; right; simpa using hi
+          · have hi' : ((readEnum cfg k.enumKind true { left := sp1.reverse, right := c :: t } Sev.null).2.2 == Sev.incomplete) = false := by
+              simpa using hi
+            simp only [hi', Bool.false_and, Bool.false_eq_true, if_false] at hqe
+            exact NoErr.quiet hqe
+        obtain ⟨name, rest, i, hct, hn1, hn2, hf, hu, hre⟩ :=
+          readEnum_noerr cfg k.enumKind sp1.reverse c t true hc hc44 hc41 hquiet
+        have hqv : q = (some i, { left := 46 :: (name.reverse ++ 46 :: sp1.reverse), right := rest }, Sev.null) := by
+          rw [← hq]; simp [enumRead, hre]
+        subst hqv
+        simp only at hne ⊢
+        have hch := (cri_char { left := 46 :: (name.reverse ++ 46 :: sp1.reverse), right := rest } Sev.null rfl).2 hne
+        generalize checkRemainingInput (some attrDelims) { left := 46 :: (name.reverse ++ 46 :: sp1.reverse), right := rest } Sev.null = X at hne hch ⊢
+        left
+        have hui := hu hcfg
+        simp at hch
+        obtain ⟨sp2, hs2, hrr, _, hat⟩ := hch
+        refine ⟨sp1, name, sp2, i, ?_, h2, by simpa using hs2, hn1, hn2, hf, hui, by simp [enumValue, hui], hat⟩
+        rw [hct, hrr]
+
+/-- BOOLEAN / LOGICAL / ENUMERATION, never silent, for the scanners as the source has them now. -/
+theorem C09_never_silent_enum {F} (ops : FloatOps F) (lookup : Int → RefLookup) (k : Kind) (hk : EnumLike k) (nullable : Bool)
+    (input : List Byte) (r : ReadResult F)
+    (h : attrRead ops Generated.lexCfg lookup k nullable (IStream.ofBytes input) = .ok r) (hne : NoErr r.sev) :
+    (∃ sp1 name sp2 i, input = sp1 ++ 46 :: (name ++ 46 :: (sp2 ++ r.s.right)) ∧ sp1.all isSpace = true ∧ sp2.all isSpace = true ∧
+        name ≠ [] ∧ name.all pw = true ∧ findName k.enumKind.table (name.map toUpper) = some i ∧
+        k.enumKind.isUnsetIdx i = false ∧ r.val = .enum i ∧ AtDelimOrEnd r.s.right) ∨
+    (nullable = true ∧ r.val = .unset ∧ ∃ sp1 c t, input = sp1 ++ c :: t ∧ sp1.all isSpace = true ∧
+        ((c = 36 ∧ ∃ sp2, t = sp2 ++ r.s.right ∧ sp2.all isSpace = true ∧ AtDelimOrEnd r.s.right) ∨
+         ((c = 44 ∨ c = 41) ∧ r.s.right = c :: t))) ∨
+    (nullable = true ∧ input.all isSpace = true ∧ r.val = .unset) :=
+  never_silent_enum_of_cfg ops Generated.lexCfg (by decide) (by decide) lookup k hk nullable input r h hne
+
 /-! ## witnesses: what the unrepaired scanners did, and the in-band null (any configuration)
 
 Each `…_witness_unrepaired` theorem evaluates the model under the configuration of the tree *before* the C09 repairs on the
@@ -278,5 +405,26 @@ theorem C09_number_sign_only_witness_unrepaired :
 theorem C09_real_overflow_witness_unrepaired :
     silentUnset (attrRead dblOps unrepairedCfg noRef .real false (IStream.ofBytes [49,46,48,69,57,57,57,44])) = true := by
   decide
+
+/-! ## BOOLEAN / LOGICAL writer: all values (finite), by evaluation of the model -/
+
+/-- the written token is in the grammar of kind `k` and denotes item `i`; followed by `d` it reads back to item `i` with
+    no error and the stream rests on `d` -/
+def enumRoundTrip (cfg : LexCfg) (k : Kind) (nullable : Bool) (i : Nat) (d : Byte) : Bool :=
+  let w := attrWrite dblOps k (.enum i : Value Nat)
+  (match classify dblOps noRef k w with
+   | .grammar (.enum j) => j == i
+   | _ => false) &&
+  (match attrRead dblOps cfg noRef k nullable (IStream.ofBytes (w ++ [d, 88])) with
+   | .ok r => (r.sev == .null) && (match r.val with | .enum j => j == i | _ => false) && (r.s.right == [d, 88]) && r.s.good
+   | .overflow => false)
+
+theorem C09_write_read_boolean :
+    ∀ i ∈ [0, 1], ∀ d ∈ [44, 41], ∀ nullable ∈ [true, false],
+      enumRoundTrip Generated.lexCfg .boolean nullable i d = true := by decide
+
+theorem C09_write_read_logical :
+    ∀ i ∈ [0, 1, 3], ∀ d ∈ [44, 41], ∀ nullable ∈ [true, false],
+      enumRoundTrip Generated.lexCfg .logical nullable i d = true := by decide
 
 end StepModel.P21.C09
